@@ -4,7 +4,7 @@ import sys, os, json, subprocess, time
 sys.path.insert(0, os.path.dirname(os.path.abspath(__file__)))
 import extract, units
 repo = os.environ.get('VERIF_REPO', '/repo')
-unit = getattr(units, sys.argv[1] + '_unit')()
+unit = getattr(units, sys.argv[1] + '_unit')(os.environ.get('TIER', 'quick'), '/var/tmp/vp') if sys.argv[1] == 'parser' else getattr(units, sys.argv[1] + '_unit')()
 out = sys.argv[2] if len(sys.argv) > 2 else '/var/tmp/vp/unit_%s.rs' % unit['name']
 g = extract.generate(repo, unit['mods'], unit['sidecar'], unit['prelude'], unit['features'])
 open(out, 'w').write(g.text)
